@@ -33,7 +33,7 @@ def unflatten (es : Entries) : Json :=
     | some e => (k, parse e.2)
     | none => (k, Json.mkObj ((es.filter fun e => e.1.1 == k).map fun e => (e.1.2, parse e.2))))
 
-def mkOverride (j : Json) : Override := ⟨(objEntries j).map (·.1), flatten j⟩
+def mkOverride (j : Json) : Override := ⟨(objEntries j).map (·.1), flatten j, true⟩
 
 structure Handle where
   inst  : Nat                                         -- instance handle in the store
@@ -52,29 +52,72 @@ def changed (st : St) : Json :=
     | some h => if st.σ.view h.inst == h.snap then none else some (jnat ih.1)
     | none => none)
 
-/-- the accesses of `method` of the instance to its receiver, from the generated footprint table (reads only:
-the model is the one of the repaired code) -/
+/-- the accesses of `method` of the instance to its receiver: `Row.program` of the generated footprint table (the
+program `c17_current_programs_read_only` is about), fields expanded to the leaf slots of the type -/
 def program (σ : Store Entries Override) (h : Nat) (method : String) : E (List Op) := do
   match σ.insts[h]? with
   | none => throw "no such instance"
   | some inst =>
     match Footprint.lookup Gen.footprints inst.typ method, typeByGo inst.typ with
-    | some row, some t => pure (row.reads.flatMap fun f => (t.leaves f).map Op.rd)
+    | some row, some t => pure (row.program t.leaves)
     | none, some t => pure (t.slots.map fun s => Op.rd s.name)   -- no row (extractor failed): read everything
     | _, none => throw s!"no type {inst.typ}"
 
 def lookupCat (st : St) (kind id : String) : Option Nat :=
   (st.cat.find? fun x => x.1 == (kind, id)).map (·.2)
 
+def mkOv (op : Json) : Option Override :=
+  if isNull op "config" then none
+  else some { mkOverride (fldD op "config" Json.null) with valuesOk := !(boolD op "invalid" false) }
+
+/-- which reference fields of variant `h` still refer to the objects of prototype `p` -/
+def sharing (σ : Store Entries Override) (p h : Nat) : List (String × Json) :=
+  match σ.insts[p]?, σ.insts[h]? with
+  | some pi, some vi =>
+    match typeByGo pi.typ with
+    | some t => (t.slots.filter (·.ref)).map fun s =>
+        (s.name, if pi.addr s.name == vi.addr s.name then Json.str "inherited" else Json.str "fresh")
+    | none => []
+  | _, _ => []
+
+/-- what the property demands the rule to observe ("own setting always wins") for a variant of prototype `p` (in
+the store `σ₀` it was created from), if that differs from what the - bug-compatible - model says it stands for;
+and the keys whose zero value the code ignores -/
+def specOf (σ₀ : Store Entries Override) (p : Nat) (ov : Override) (eff : Entries) : Json × Json :=
+  let spec := effectiveSpec σ₀ p ov
+  let zi := match (σ₀.insts[p]?).bind (fun i => typeByGo i.typ) with
+    | some t => zeroIgnored t ov
+    | none => []
+  (if spec == eff then Json.null else unflatten spec,
+   jarr (zi.map fun k => Json.str (if k.2 == "" then k.1 else k.1 ++ "." ++ k.2)))
+
+structure Counters where
+  inherited : Nat := 0
+  fresh : Nat := 0
+  alias : Nat := 0
+  variant : Nat := 0
+  errors : Nat := 0
+  reads : Nat := 0
+  steps : Nat := 0
+  concCreated : Nat := 0
+  stuck : Nat := 0
+  zeroIgnored : Nat := 0
+
+/-- the answer for an object handed out: `res` part, effective configuration, specification's configuration (if
+different), keys whose zero value the code ignores -/
+def describe (st : St) (p : Option Nat) (h : Nat) (isProto : Bool) : List (String × Json) × Json :=
+  if isProto then ([("st", "ok"), ("alias", true), ("ref", true)], unflatten (effective st.σ h))
+  else ([("st", "ok"), ("alias", false), ("shared", Json.mkObj (sharing st.σ (p.getD 0) h)), ("ref", true)],
+        unflatten (effective st.σ h))
+
+def countShared (r : List (String × Json)) (v : String) : Nat :=
+  match r.find? (fun x => x.1 == "shared") with
+  | some (_, .obj m) => (m.toList.filter fun x => x.2 == Json.str v).length
+  | _ => 0
+
 def run (c : Json) : E Json := do
   let mut st : St := ⟨⟨[], [], []⟩, [], []⟩
-  let mut nInherited := 0
-  let mut nFresh := 0
-  let mut nAlias := 0
-  let mut nVariant := 0
-  let mut nErr := 0
-  let mut nReads := 0
-  let mut nSteps := 0
+  let mut n : Counters := {}
   for m in ← arr c "catalogue" do
     let kind ← str m "kind"
     let typ ← str m "type"
@@ -85,47 +128,43 @@ def run (c : Json) : E Json := do
       st := { st with σ := load st.σ t (← str m "id") (flatten (fldD m "config" (Json.mkObj []))),
                       cat := st.cat ++ [((kind, ← str m "id"), h)] }
   let mut out : List Json := []
-  let mut effs : List Json := []
+  let mut effs : List Json := []      -- per object handed out (creates, then concurrent creates of a batch)
+  let mut specs : List Json := []
+  let mut zeros : List Json := []
   for op in ← arr c "ops" do
     let k ← str op "op"
     if k == "create" then
-      let kind ← str op "kind"
-      let p := lookupCat st kind (← str op "id")
-      let ov := if isNull op "config" then none else some (mkOverride (fldD op "config" Json.null))
+      let p := lookupCat st (← str op "kind") (← str op "id")
+      let ov := mkOv op
       match create st.σ p ov with
       | .notFound =>
-        nErr := nErr + 1
+        n := { n with errors := n.errors + 1 }
         st := { st with handles := st.handles ++ [none] }
-        effs := effs ++ [Json.null]
+        effs := effs ++ [Json.null]; specs := specs ++ [Json.null]; zeros := zeros ++ [jarr []]
         out := out ++ [Json.mkObj [("st", "notfound"), ("changed", changed st)]]
       | .configError =>
-        nErr := nErr + 1
+        n := { n with errors := n.errors + 1 }
         st := { st with handles := st.handles ++ [none] }
-        effs := effs ++ [Json.null]
+        effs := effs ++ [Json.null]; specs := specs ++ [Json.null]; zeros := zeros ++ [jarr []]
         out := out ++ [Json.mkObj [("st", "config"), ("changed", changed st)]]
       | .proto h =>
-        nAlias := nAlias + 1
+        n := { n with alias := n.alias + 1 }
         st := { st with handles := st.handles ++ [some ⟨h, st.σ.view h⟩] }
-        effs := effs ++ [unflatten (effective st.σ h)]
-        out := out ++ [Json.mkObj [("st", "ok"), ("alias", true), ("ref", true), ("changed", changed st)]]
+        let (r, e) := describe st p h true
+        effs := effs ++ [e]; specs := specs ++ [Json.null]; zeros := zeros ++ [jarr []]
+        out := out ++ [Json.mkObj (r ++ [("changed", changed st)])]
       | .variant σ' h =>
-        nVariant := nVariant + 1
+        let σ₀ := st.σ
         st := { st with σ := σ', handles := st.handles ++ [some ⟨h, σ'.view h⟩] }
-        -- which reference fields still refer to the prototype's objects
-        let ph := p.getD 0
-        let shared : List (String × Json) :=
-          match σ'.insts[ph]?, σ'.insts[h]? with
-          | some pi, some vi =>
-            match typeByGo pi.typ with
-            | some t => (t.slots.filter (·.ref)).map fun s =>
-                (s.name, if pi.addr s.name == vi.addr s.name then Json.str "inherited" else Json.str "fresh")
-            | none => []
-          | _, _ => []
-        nInherited := nInherited + (shared.filter fun x => x.2 == Json.str "inherited").length
-        nFresh := nFresh + (shared.filter fun x => x.2 == Json.str "fresh").length
-        effs := effs ++ [unflatten (effective st.σ h)]
-        out := out ++ [Json.mkObj [("st", "ok"), ("alias", false), ("shared", Json.mkObj shared), ("ref", true),
-                                   ("changed", changed st)]]
+        let (r, e) := describe st p h false
+        let (sp, zi) := match p, ov with
+          | some p, some ov => specOf σ₀ p ov (effective σ' h)
+          | _, _ => (Json.null, jarr [])
+        n := { n with variant := n.variant + 1, inherited := n.inherited + countShared r "inherited",
+                      fresh := n.fresh + countShared r "fresh",
+                      zeroIgnored := n.zeroIgnored + (if zi == jarr [] then 0 else 1) }
+        effs := effs ++ [e]; specs := specs ++ [sp]; zeros := zeros ++ [zi]
+        out := out ++ [Json.mkObj (r ++ [("changed", changed st)])]
     else if k == "exec" then
       let hi ← nat op "h"
       match st.handles[hi]? with
@@ -134,43 +173,98 @@ def run (c : Json) : E Json := do
         let th : Thread Entries Override := ⟨h.inst, prog, prog, [], .run⟩
         let cfg : Config Entries Override := ⟨st.σ, upd (fun _ => idle) 0 th⟩
         let cfg' := runSched heimdall cfg (List.replicate prog.length 0)
-        nReads := nReads + (cfg'.threads 0).seen.length
+        n := { n with reads := n.reads + (cfg'.threads 0).seen.length,
+                      stuck := n.stuck + (if (cfg'.threads 0).ops.isEmpty then 0 else 1) }
         st := { st with σ := cfg'.store }
-        out := out ++ [Json.mkObj [("ran", (cfg'.threads 0).ops.isEmpty), ("ref", true), ("changed", changed st)]]
+        out := out ++ [Json.mkObj [("ran", true), ("ref", true), ("changed", changed st)]]
       | _ => out := out ++ [Json.mkObj [("ran", false), ("changed", changed st)]]
     else if k == "par" then
-      -- `n` concurrent executions round-robin over the handles `hs`, interleaved with the creation of one
-      -- more variant (`with`, optional) - one micro-step of each thread in turn
+      -- `n` concurrent executions round-robin over the handles `hs`, interleaved with the creation of the variants
+      -- listed under `creates` (every one a thread of its own going through `begin` / `slot` / `publish`): one
+      -- micro-step of each thread in turn
       let hs ← nats op "hs"
-      let n ← nat op "n"
+      let cnt ← nat op "n"
       let live := hs.filterMap fun hi => match st.handles[hi]? with
         | some (some h) => some h.inst
         | _ => none
       if live.isEmpty then
+        -- nothing to execute: the batch is skipped, its creations are not performed (their numbers stay unused)
+        for _ in arrD op "creates" do
+          st := { st with handles := st.handles ++ [none] }
+          effs := effs ++ [Json.null]; specs := specs ++ [Json.null]; zeros := zeros ++ [jarr []]
         out := out ++ [Json.mkObj [("ran", false), ("changed", changed st)]]
       else
         let mut threads : Nat → Thread Entries Override := fun _ => idle
         let mut maxLen := 0
-        for j in List.range n do
+        for j in List.range cnt do
           let inst := live[j % live.length]!
           let prog ← program st.σ inst "Execute"
           maxLen := max maxLen prog.length
           threads := upd threads j ⟨inst, prog, prog, [], .run⟩
-        let sched := (List.replicate (maxLen + 1) (List.range n)).flatten
+        -- the creators: what the factory decides is decided on the store before the batch
+        let creates := arrD op "creates"
+        let mut decisions : List (Option Nat × Option Override × Decision) := []
+        let mut ti := cnt
+        let mut creatorOf : List (Option Nat) := []
+        for cr in creates do
+          let p := lookupCat st (← str cr "kind") (← str cr "id")
+          let ov := mkOv cr
+          let d := decision st.σ p ov
+          decisions := decisions ++ [(p, ov, d)]
+          match d with
+          | .build p' o =>
+            let prog ← program st.σ p' "WithConfig"
+            maxLen := max maxLen (prog.length + 3 + ((st.σ.insts[p']?).map (·.slots.length)).getD 0)
+            threads := upd threads ti ⟨p', prog, prog, [], .create o⟩
+            creatorOf := creatorOf ++ [some ti]
+            ti := ti + 1
+          | _ => creatorOf := creatorOf ++ [none]
+        let sched := (List.replicate (maxLen + 1) (List.range ti)).flatten
+        let σ₀ := st.σ
         let cfg' := runSched heimdall ⟨st.σ, threads⟩ sched
-        nSteps := nSteps + sched.length
-        -- every thread has seen exactly what its program reads when run alone on the store
-        let ok := (List.range n).all fun j =>
+        n := { n with steps := n.steps + sched.length }
+        -- every execution has seen exactly what its program reads when run alone on the store
+        let ok := (List.range cnt).all fun j =>
           let t := cfg'.threads j
           t.ops.isEmpty && (match cfg'.store.insts[t.recv]? with
             | some inst => t.seen == readAll cfg'.store.cells inst t.prog
             | none => false)
         st := { st with σ := cfg'.store }
-        out := out ++ [Json.mkObj [("ran", true), ("par_ok", ok), ("changed", changed st)]]
+        -- the objects created meanwhile are handed out, in the order of `creates`
+        let mut created : List Json := []
+        for ((p, ov, d), tix) in decisions.zip creatorOf do
+          match d, tix with
+          | .build p' o, some tix =>
+            match (cfg'.threads tix).phase with
+            | .done h =>
+              st := { st with handles := st.handles ++ [some ⟨h, st.σ.view h⟩] }
+              let (r, e) := describe st p h false
+              let (sp, zi) := specOf σ₀ p' o (effective st.σ h)
+              n := { n with concCreated := n.concCreated + 1, inherited := n.inherited + countShared r "inherited",
+                            fresh := n.fresh + countShared r "fresh" }
+              effs := effs ++ [e]; specs := specs ++ [sp]; zeros := zeros ++ [zi]
+              created := created ++ [Json.mkObj r]
+            | _ => throw "a creation did not finish within the schedule"
+          | .proto h, _ =>
+            st := { st with handles := st.handles ++ [some ⟨h, st.σ.view h⟩] }
+            let (r, e) := describe st p h true
+            effs := effs ++ [e]; specs := specs ++ [Json.null]; zeros := zeros ++ [jarr []]
+            created := created ++ [Json.mkObj r]
+          | .configError, _ =>
+            st := { st with handles := st.handles ++ [none] }
+            effs := effs ++ [Json.null]; specs := specs ++ [Json.null]; zeros := zeros ++ [jarr []]
+            created := created ++ [Json.mkObj [("st", "config")]]
+          | _, _ =>
+            st := { st with handles := st.handles ++ [none] }
+            effs := effs ++ [Json.null]; specs := specs ++ [Json.null]; zeros := zeros ++ [jarr []]
+            created := created ++ [Json.mkObj [("st", "notfound")]]
+        out := out ++ [Json.mkObj [("ran", true), ("par_ok", ok), ("created", jarr created), ("changed", changed st)]]
     else throw s!"unknown op {k}"
-  return Json.mkObj [("res", jarr out), ("eff", jarr effs),
-    ("stats", Json.mkObj [("alias", jnat nAlias), ("variant", jnat nVariant), ("errors", jnat nErr),
-      ("inherited_refs", jnat nInherited), ("fresh_refs", jnat nFresh), ("reads", jnat nReads),
-      ("interleaved_steps", jnat nSteps), ("cells", jnat st.σ.cells.length), ("instances", jnat st.σ.insts.length)])]
+  return Json.mkObj [("res", jarr out), ("eff", jarr effs), ("eff_spec", jarr specs), ("zero_ignored", jarr zeros),
+    ("stats", Json.mkObj [("alias", jnat n.alias), ("variant", jnat n.variant), ("errors", jnat n.errors),
+      ("inherited_refs", jnat n.inherited), ("fresh_refs", jnat n.fresh), ("reads", jnat n.reads),
+      ("interleaved_steps", jnat n.steps), ("variants_created_interleaved", jnat n.concCreated),
+      ("stuck_programs", jnat n.stuck), ("zero_ignored_overrides", jnat n.zeroIgnored),
+      ("cells", jnat st.σ.cells.length), ("instances", jnat st.σ.insts.length)])]
 
 end Driver.Mech
